@@ -63,9 +63,8 @@ def judge(ctx, offers, upstream, outer_swp, http2, selected, where):
                  % (offers, upstream, http2, outer_swp, selected))
     if upstream is not None and not outer_swp:
         if selected is not None and selected != upstream:
-            kind = "upstream-not-offered" if upstream not in offers else "upstream-offered"
-            if upstream == b"h2" and not http2 and upstream in offers:
-                kind = "upstream-h2-http2-off"
+            kind = ("upstream-negotiated-none" if upstream == b"" else
+                    "upstream-not-offered" if upstream not in offers else "upstream-offered")
             ctx.fail("%sother-than-upstream:%s" % (where, kind),
                      "offers=%r upstream=%r http2=%r selected=%r (expected %r or none)" % (offers, upstream, http2, selected, upstream))
     if not http2 and selected == b"h2":
